@@ -205,13 +205,73 @@ def py_range_spec(which, given, found, excl):
 # ---------------------------------------------------------------------------
 # SEEK-ALGEBRA
 
+def _seek_roles(tu):
+    """the locals of BTreeItems_seek by what they are committed to at the end
+    (self->pseudoindex / currentoffset / currentbucket) and the distance still
+    to go (the variable the two loops test against 0)"""
+    fn = tu.func("BTreeItems_seek")
+    roles = {}
+    for a in fn.walk():
+        if a.k == "BinaryOperator" and a.v == "=":
+            lp = path(a.kids[0]) or ""
+            r0 = strip(a.kids[1])
+            for fld, role in (("pseudoindex", "pidx"), ("currentoffset", "off"), ("currentbucket", "bkt")):
+                if lp.endswith("->" + fld) and r0 is not None and r0.k == "DeclRefExpr":
+                    roles[role] = r0.n
+    if sorted(roles) != ["bkt", "off", "pidx"]:
+        raise AnalysisError("anchor vanished: BTreeItems_seek does not commit (pseudoindex, currentoffset, "
+                            "currentbucket) from locals")
+    return roles
+
+
+def _stores_len_through(tu, call, bkt):
+    """{local: True} for f(.., bkt, .., &local, ..) where f stores its bucket
+    parameter's len through that out-parameter as a top-level statement"""
+    c = callee(call)
+    out = {}
+    if c[0] != "fn" or c[1] not in tu.funcs or tu.body(c[1]) is None:
+        return out
+    params = [p.n for p in tu.params(c[1])]
+    bpar = None
+    outs = {}
+    for pn, a in zip(params, call.kids[1:]):
+        a0 = strip(a)
+        if path(a0) == bkt:
+            bpar = pn
+        if a0 is not None and a0.k == "UnaryOperator" and a0.v == "&" and path(a0.kids[0]):
+            outs[pn] = path(a0.kids[0])
+    if bpar is None:
+        return out
+    for st in tu.body(c[1]).kids:
+        x = strip(st)
+        if x is not None and x.k == "BinaryOperator" and x.v == "=":
+            l0, r0 = strip(x.kids[0]), strip(x.kids[1])
+            if l0 is not None and l0.k == "UnaryOperator" and l0.v == "*" and path(l0.kids[0]) in outs and \
+                    r0 is not None and r0.k == "MemberExpr" and r0.n == "len" and path(r0.kids[0]) == bpar:
+                out[outs[path(l0.kids[0])]] = True
+    return out
+
+
 def seek_algebra(tu):
     """Affine effect of each loop-body path of BTreeItems_seek on
-    (pseudoindex, delta, currentoffset)."""
+    (pseudoindex, delta, currentoffset) - the locals are found by their roles."""
     fn = tu.func("BTreeItems_seek")
+    roles = _seek_roles(tu)
+    PIDX, OFF, BKT = roles["pidx"], roles["off"], roles["bkt"]
     loops = [s for s in tu.body("BTreeItems_seek").kids if s.k == "WhileStmt"]
     if len(loops) != 2:
         raise AnalysisError("anchor vanished: the two loops of BTreeItems_seek")
+    dvars = set()
+    for loop in loops:
+        c = strip(loop.kids[0] if loop.kids[0].k != "Absent" else loop.kids[1])
+        conds = [k for k in loop.kids[:-1] if k.k != "Absent"]
+        c = strip(conds[-1]) if conds else None
+        if c is not None and c.k == "BinaryOperator" and c.v in ("<", ">", "!=") and const_int(c.kids[1]) == 0 \
+                and path(c.kids[0]):
+            dvars.add(path(c.kids[0]))
+    if len(dvars) != 1:
+        raise AnalysisError("anchor vanished: the loops of BTreeItems_seek do not test one distance variable")
+    DELTA = dvars.pop()
     results = []
     for li, loop in enumerate(loops):
         paths = []
@@ -222,16 +282,22 @@ def seek_algebra(tu):
             if c is not None:
                 return p_const(c)
             if e.k == "DeclRefExpr":
-                if e.n in env:
+                if env.get(e.n) is not None:
                     return env[e.n]
                 raise AnalysisError("seek: variable %s at %s:%s" % (e.n, e.f, e.l))
-            if e.k == "MemberExpr" and e.n == "len":
+            if e.k == "MemberExpr" and e.n == "len" and path(e.kids[0]) == BKT:
                 return p_var("L%s" % env["#bucket"])
             if e.k == "UnaryOperator" and e.v == "-":
                 return p_mul(p_const(-1), ev(e.kids[0], env))
             if e.k == "BinaryOperator" and e.v in ("+", "-"):
                 return p_add(ev(e.kids[0], env), ev(e.kids[1], env), 1 if e.v == "+" else -1)
             raise AnalysisError("seek: expression %s at %s:%s" % (text(e), e.f, e.l))
+
+        def try_ev(e, env):
+            try:
+                return ev(e, env)
+            except AnalysisError:
+                return None
 
         def run(stmts, env, events):
             """returns list of (env, events, finished)"""
@@ -250,11 +316,25 @@ def seek_algebra(tu):
                     break
             return [(e, ev_, False) for e, ev_ in states]
 
+        def effects(e, env, events):
+            """side effects of an expression evaluated for its value (a condition):
+            helper calls that store the bucket's len / step to the previous bucket"""
+            for c in e.walk():
+                if c.k == "CallExpr":
+                    for v in _stores_len_through(tu, c, BKT):
+                        env[v] = p_var("L%s" % env["#bucket"])
+            return events
+
         def step(s, env, events):
             k = s.k
             if k == "CompoundStmt":
                 return run(list(s.kids), env, events)
-            if k in ("NullStmt", "DeclStmt"):
+            if k in ("NullStmt",):
+                return [(env, events, False)]
+            if k == "DeclStmt":
+                for v in s.kids:
+                    if v.k == "VarDecl" and v.kids and v.kids[-1].k != "Absent":
+                        env[v.n] = try_ev(v.kids[-1], env)
                 return [(env, events, False)]
             if k == "DoStmt":     # PER_UNUSE
                 return [(env, events, False)]
@@ -263,9 +343,10 @@ def seek_algebra(tu):
                 from ..cfg import match_acq_stmt
                 if match_acq_stmt(s) is not None:
                     return [(env, events, False)]
+                events = effects(s.kids[0], env, events)
                 out = []
                 out.extend(step(s.kids[1], dict(env), events + ["T:" + text(s.kids[0])[:40]]))
-                if len(s.kids) > 2:
+                if len(s.kids) > 2 and s.kids[2].k != "Absent":
                     out.extend(step(s.kids[2], dict(env), events + ["F:" + text(s.kids[0])[:40]]))
                 else:
                     out.append((env, events + ["F:" + text(s.kids[0])[:40]], False))
@@ -279,36 +360,41 @@ def seek_algebra(tu):
             if k == "CompoundAssignOperator":
                 v = path(s.kids[0])
                 r = ev(s.kids[1], env)
+                if env.get(v) is None:
+                    raise AnalysisError("seek: %s of the unknown %s at %s:%s" % (s.v, v, s.f, s.l))
                 env[v] = p_add(env[v], r, 1 if s.v == "+=" else -1)
                 return [(env, events, False)]
             if k == "BinaryOperator" and s.v == "=":
                 v = path(s.kids[0])
                 r0 = strip(s.kids[1])
-                if v == "currentbucket":
+                if v == BKT:
                     env["#bucket"] = env["#bucket"] + 1
                     events = events + ["next"]
-                elif v == "b":
-                    pass
-                elif r0.k == "CallExpr" and callee(r0) == ("fn", "PreviousBucket"):
+                elif r0 is not None and r0.k == "CallExpr" and callee(r0) == ("fn", "PreviousBucket"):
                     env["#bucket"] = env["#bucket"] + 1
                     events = events + ["prev"]
                     env[v] = p_const(1)
-                elif v in ("max", "pseudoindex", "delta", "currentoffset", "status"):
+                elif v in (PIDX, DELTA, OFF):
                     env[v] = ev(s.kids[1], env)
+                elif v is not None and "->" not in v and "." not in v:
+                    # any other local: its value if it is affine in the tracked ones
+                    events = effects(s.kids[1], env, events)
+                    env[v] = try_ev(s.kids[1], env)
                 else:
                     raise AnalysisError("seek: assignment to %s" % v)
                 return [(env, events, False)]
+            if k == "CallExpr":
+                return [(env, effects(s, env, events), False)]
             raise AnalysisError("seek: unrecognised statement %s at %s:%s" % (k, s.f, s.l))
-        env0 = {"pseudoindex": p_var("P"), "delta": p_var("D"), "currentoffset": p_var("O"),
-                "#bucket": 0}
+        env0 = {PIDX: p_var("P"), DELTA: p_var("D"), OFF: p_var("O"), "#bucket": 0}
         end = run(list(loop.kids[-1].kids), env0, [])
         for e, ev_, fin in end:
             paths.append((e, ev_))
         for e, ev_ in paths:
             kind = "next" if "next" in ev_ else "prev" if "prev" in ev_ else \
                    "within" if "break" in ev_ else "other"
-            results.append((li, kind, show(e["pseudoindex"]), show(e["delta"]) if kind != "within" else None,
-                            show(e["currentoffset"])))
+            results.append((li, kind, show(e[PIDX]), show(e[DELTA]) if kind != "within" else None,
+                            show(e[OFF])))
     return sorted(set(results), key=repr)
 
 
